@@ -614,9 +614,9 @@ static const yytype_int8 yytranslate[] =
 /* YYRLINE[YYN] -- Source line where rule number YYN was defined.  */
 static const yytype_int16 yyrline[] =
 {
-       0,   107,   107,   116,   120,   132,   143,   152,   161,   165,
-     174,   179,   178,   191,   227,   259,   281,   301,   305,   322,
-     331,   340,   363
+       0,   107,   107,   116,   120,   132,   143,   152,   196,   200,
+     209,   214,   213,   226,   262,   294,   316,   336,   340,   357,
+     366,   375,   398
 };
 #endif
 
@@ -1310,56 +1310,91 @@ yyreduce:
   case 7: /* token_sequence: token_sequence token_or_range  */
 #line 153 "hex_grammar.y"
       {
-        yr_re_node_append_child((yyvsp[-1].re_node), (yyvsp[0].re_node));
+        RE_NODE* tail = (yyvsp[-1].re_node)->children_tail;
+
+        if (tail != NULL &&
+            tail->type == RE_NODE_RANGE_ANY &&
+            (yyvsp[0].re_node)->type == RE_NODE_RANGE_ANY)
+        {
+          // Two consecutive jumps are equivalent to a single jump whose bounds
+          // are the sums of theirs. They are merged because only a jump with
+          // tokens at both sides can be turned into a chaining point, the
+          // second of two consecutive jumps would be emitted as it is and its
+          // bounds truncated to the 16 bits of the opcode's operands.
+          int64_t start = (int64_t) tail->start + (yyvsp[0].re_node)->start;
+          int64_t end = (int64_t) tail->end + (yyvsp[0].re_node)->end;
+
+          if (start > INT_MAX)
+          {
+            yr_re_node_destroy((yyvsp[-1].re_node));
+            yr_re_node_destroy((yyvsp[0].re_node));
+            yyerror(yyscanner, lex_env, "invalid jump length");
+            YYABORT;
+          }
+
+          tail->start = (int) start;
+
+          if (tail->end == INT_MAX || (yyvsp[0].re_node)->end == INT_MAX || end > INT_MAX)
+            tail->end = INT_MAX;
+          else
+            tail->end = (int) end;
+
+          yr_re_node_destroy((yyvsp[0].re_node));
+        }
+        else
+        {
+          yr_re_node_append_child((yyvsp[-1].re_node), (yyvsp[0].re_node));
+        }
+
         (yyval.re_node) = (yyvsp[-1].re_node);
       }
-#line 1317 "hex_grammar.c"
+#line 1352 "hex_grammar.c"
     break;
 
   case 8: /* token_or_range: token  */
-#line 162 "hex_grammar.y"
+#line 197 "hex_grammar.y"
       {
         (yyval.re_node) = (yyvsp[0].re_node);
       }
-#line 1325 "hex_grammar.c"
+#line 1360 "hex_grammar.c"
     break;
 
   case 9: /* token_or_range: range  */
-#line 166 "hex_grammar.y"
+#line 201 "hex_grammar.y"
       {
         (yyval.re_node) = (yyvsp[0].re_node);
         (yyval.re_node)->greedy = false;
       }
-#line 1334 "hex_grammar.c"
+#line 1369 "hex_grammar.c"
     break;
 
   case 10: /* token: byte  */
-#line 175 "hex_grammar.y"
+#line 210 "hex_grammar.y"
       {
         (yyval.re_node) = (yyvsp[0].re_node);
       }
-#line 1342 "hex_grammar.c"
+#line 1377 "hex_grammar.c"
     break;
 
   case 11: /* $@1: %empty  */
-#line 179 "hex_grammar.y"
+#line 214 "hex_grammar.y"
       {
         lex_env->inside_or++;
       }
-#line 1350 "hex_grammar.c"
+#line 1385 "hex_grammar.c"
     break;
 
   case 12: /* token: '(' $@1 alternatives ')'  */
-#line 183 "hex_grammar.y"
+#line 218 "hex_grammar.y"
       {
         (yyval.re_node) = (yyvsp[-1].re_node);
         lex_env->inside_or--;
       }
-#line 1359 "hex_grammar.c"
+#line 1394 "hex_grammar.c"
     break;
 
   case 13: /* range: '[' _NUMBER_ ']'  */
-#line 192 "hex_grammar.y"
+#line 227 "hex_grammar.y"
       {
         if ((yyvsp[-1].integer) <= 0)
         {
@@ -1395,11 +1430,11 @@ yyreduce:
           (yyval.re_node)->end = (int) (yyvsp[-1].integer);
         }
       }
-#line 1399 "hex_grammar.c"
+#line 1434 "hex_grammar.c"
     break;
 
   case 14: /* range: '[' _NUMBER_ '-' _NUMBER_ ']'  */
-#line 228 "hex_grammar.y"
+#line 263 "hex_grammar.y"
       {
         if (lex_env->inside_or &&
             ((yyvsp[-3].integer) > YR_STRING_CHAINING_THRESHOLD ||
@@ -1431,11 +1466,11 @@ yyreduce:
         (yyval.re_node)->start = (int) (yyvsp[-3].integer);
         (yyval.re_node)->end = (int) (yyvsp[-1].integer);
       }
-#line 1435 "hex_grammar.c"
+#line 1470 "hex_grammar.c"
     break;
 
   case 15: /* range: '[' _NUMBER_ '-' ']'  */
-#line 260 "hex_grammar.y"
+#line 295 "hex_grammar.y"
       {
         if (lex_env->inside_or)
         {
@@ -1457,11 +1492,11 @@ yyreduce:
         (yyval.re_node)->start = (int) (yyvsp[-2].integer);
         (yyval.re_node)->end = INT_MAX;
       }
-#line 1461 "hex_grammar.c"
+#line 1496 "hex_grammar.c"
     break;
 
   case 16: /* range: '[' '-' ']'  */
-#line 282 "hex_grammar.y"
+#line 317 "hex_grammar.y"
       {
         if (lex_env->inside_or)
         {
@@ -1477,19 +1512,19 @@ yyreduce:
         (yyval.re_node)->start = 0;
         (yyval.re_node)->end = INT_MAX;
       }
-#line 1481 "hex_grammar.c"
+#line 1516 "hex_grammar.c"
     break;
 
   case 17: /* alternatives: tokens  */
-#line 302 "hex_grammar.y"
+#line 337 "hex_grammar.y"
       {
           (yyval.re_node) = (yyvsp[0].re_node);
       }
-#line 1489 "hex_grammar.c"
+#line 1524 "hex_grammar.c"
     break;
 
   case 18: /* alternatives: alternatives '|' tokens  */
-#line 306 "hex_grammar.y"
+#line 341 "hex_grammar.y"
       {
         mark_as_not_fast_regexp();
 
@@ -1503,11 +1538,11 @@ yyreduce:
         yr_re_node_append_child((yyval.re_node), (yyvsp[-2].re_node));
         yr_re_node_append_child((yyval.re_node), (yyvsp[0].re_node));
       }
-#line 1507 "hex_grammar.c"
+#line 1542 "hex_grammar.c"
     break;
 
   case 19: /* byte: _BYTE_  */
-#line 323 "hex_grammar.y"
+#line 358 "hex_grammar.y"
       {
         (yyval.re_node) = yr_re_node_create(RE_NODE_LITERAL);
 
@@ -1516,11 +1551,11 @@ yyreduce:
         (yyval.re_node)->value = (int) (yyvsp[0].integer);
         (yyval.re_node)->mask = 0xFF;
       }
-#line 1520 "hex_grammar.c"
+#line 1555 "hex_grammar.c"
     break;
 
   case 20: /* byte: _NOT_BYTE_  */
-#line 332 "hex_grammar.y"
+#line 367 "hex_grammar.y"
       {
         (yyval.re_node) = yr_re_node_create(RE_NODE_NOT_LITERAL);
 
@@ -1529,11 +1564,11 @@ yyreduce:
         (yyval.re_node)->value = (int) (yyvsp[0].integer);
         (yyval.re_node)->mask = 0xFF;
       }
-#line 1533 "hex_grammar.c"
+#line 1568 "hex_grammar.c"
     break;
 
   case 21: /* byte: _MASKED_BYTE_  */
-#line 341 "hex_grammar.y"
+#line 376 "hex_grammar.y"
       {
         uint8_t mask = (uint8_t) ((yyvsp[0].integer) >> 8);
 
@@ -1556,11 +1591,11 @@ yyreduce:
           (yyval.re_node)->mask = mask;
         }
       }
-#line 1560 "hex_grammar.c"
+#line 1595 "hex_grammar.c"
     break;
 
   case 22: /* byte: _MASKED_NOT_BYTE_  */
-#line 364 "hex_grammar.y"
+#line 399 "hex_grammar.y"
       {
         uint8_t mask = (uint8_t) ((yyvsp[0].integer) >> 8);
 
@@ -1571,11 +1606,11 @@ yyreduce:
         (yyval.re_node)->value = (yyvsp[0].integer) & 0xFF;
         (yyval.re_node)->mask = mask;
       }
-#line 1575 "hex_grammar.c"
+#line 1610 "hex_grammar.c"
     break;
 
 
-#line 1579 "hex_grammar.c"
+#line 1614 "hex_grammar.c"
 
       default: break;
     }
@@ -1768,5 +1803,5 @@ yyreturnlab:
   return yyresult;
 }
 
-#line 376 "hex_grammar.y"
+#line 411 "hex_grammar.y"
 
